@@ -1,7 +1,7 @@
 CONSTANTS
   Source = "built"
   Scale = "small"
-  Reader = "asis"
+  Reader = "repaired"
 INIT Init
 NEXT Next
 INVARIANT G2IsG1
